@@ -880,7 +880,9 @@ def _basic_index(I, el):
 
 def _index_shape(I, e, shape, elems, b):
     """Resulting Shape, None (unknown) or 'fancy'."""
-    n_real = sum(1 for el in elems if not (isinstance(el, ast.Constant) and (el.value is None or el.value is Ellipsis)))
+    def _new(el):
+        return (isinstance(el, ast.Constant) and el.value is None) or (isinstance(el, ast.Attribute) and el.attr == "newaxis")
+    n_real = sum(1 for el in elems if not (_new(el) or (isinstance(el, ast.Constant) and el.value is Ellipsis)))
     has_ell = any(isinstance(el, ast.Constant) and el.value is Ellipsis for el in elems)
     axes = list(shape.axes)
     if shape.ell and not has_ell:
@@ -929,7 +931,8 @@ def _index_shape(I, e, shape, elems, b):
                 pos += 1
         return Shape(res, shape.ell)
     if n_real > len(axes):
-        if not shape.ell and b.tag("kind") == "ndarray":
+        if not shape.ell and b.tag("kind") == "ndarray" and all(
+                isinstance(el, (ast.Slice, ast.Constant)) or _new(el) for el in elems):      # only plainly positional indices are counted
             I.type_error(e, "SHAPE", f"{n_real} indices for an array of rank {len(axes)} {shape}: IndexError (too many indices)", sub="index-rank")
         return None
     res = []
